@@ -5,6 +5,8 @@
               an omitted required option, an unknown option name, the options the documentation leaves undecided
      mathx    per math grader: every combination of the options the cross-option rules mention
      answers  every answers format of an item grader up to the bounds, with the canonical tuple-of-dictionaries form
+     listans  answers formats of ListGrader (list, tuple of lists) and SingleListGrader (list, delimited string, dictionary
+              with a list, tuple of those), entries in every item-grader format, with the canonical form
      lgroup   ListGrader: ordered x subgraders x grouping x number of answers x tuple-of-lists
      nested   chains of nested SingleListGraders over three delimiters
      square   SquareMatrices: symmetry x traceless x determinant x complex x dimension *)
@@ -16,7 +18,7 @@ Pairs(f) == {<<k, f[k]>> : k \in DOMAIN f}
 IsCase == c.kind # "seed"
 
 (* ---------------------------------------------------------------------- single *)
-SingleOpts(cls) == DOMAIN Options[cls] \cup Undocumented(cls) \cup {"zz_unknown_option"}
+SingleOpts(cls) == DOMAIN Options[cls] \cup Undocumented(cls) \cup (IF cls \in Positional THEN {} ELSE {"zz_unknown_option"})
 SingleVals(cls, opt) ==
   IF opt = "zz_unknown_option" THEN {"int_one"}
   ELSE IF opt \in Undocumented(cls) THEN {"bool_false", "str"}
@@ -78,6 +80,29 @@ AnswerValues ==
 \cup (IF Big THEN {[tup |-> TRUE, items |-> <<i, j, k>>] : i \in FewItems, j \in FewItems, k \in FewItems} ELSE {})
 AnswersOut(a) == [expect |-> AnswersExpect(a), canon |-> IF AnswersExpect(a) = "accept" THEN CanonAnswers(a) ELSE <<>>]
 
+(* ---------------------------------------------------------------------- listans *)
+Bare(i) == [tup |-> FALSE, items |-> <<i>>]
+Entries == {Bare(Atom("e1")), Bare(Atom("e2")), Bare(Dict(<<"e3">>, FALSE, "ghalf", "m_text", "absent", FALSE)),
+            [tup |-> TRUE, items |-> <<Atom("e1"), Atom("e2")>>], Bare(Atom("b_int"))}
+AtomEntries == {Bare(Atom("e1")), Bare(Atom("e2"))}
+EntryLists(lo, hi) == UNION {[1..n -> Entries] : n \in lo..hi}
+Alt(f, es, g, m) == [form |-> f, entries |-> es, grade |-> g, msg |-> m]
+AltsOf(cls) ==
+  IF cls = "ListGrader"
+  THEN {Alt("list", es, "absent", "absent") : es \in EntryLists(1, IF Big THEN 3 ELSE 2)}
+       \cup {Alt(f, <<Bare(Atom("e1")), Bare(Atom("e2"))>>, "absent", "absent") : f \in {"string", "dict"}}
+  ELSE {Alt("list", es, "absent", "absent") : es \in EntryLists(1, IF Big THEN 3 ELSE 2)}
+       \cup {Alt("dict", es, g, m) : es \in EntryLists(1, 2), g \in {"absent", "ghalf", "g0", "g2"}, m \in {"absent", "m_text", "m_int"}}
+       \cup {Alt("string", es, "absent", "absent") : es \in UNION {[1..n -> AtomEntries] : n \in 1..3}}
+FewAlts(cls) == {a \in AltsOf(cls) : Len(a.entries) = 2 /\ a.entries[1] = Bare(Atom("e1")) /\ a.msg # "m_int"}
+                \cup {Alt("list", <<Bare(Atom("e2"))>>, "absent", "absent")}
+ListAnswerValues(cls) ==
+     {[bare |-> TRUE, alts |-> <<a>>] : a \in AltsOf(cls)}
+\cup {[bare |-> FALSE, alts |-> <<a>>] : a \in FewAlts(cls)}
+\cup {[bare |-> FALSE, alts |-> <<a, b>>] : a \in FewAlts(cls), b \in FewAlts(cls)}
+ListAnswersOut(cls, la) == LET e == ListAnswersExpect(cls, la) IN
+                           [expect |-> e, canon |-> IF e = "accept" THEN CanonListAnswers(cls, la) ELSE <<>>]
+
 (* ---------------------------------------------------------------------- lgroup *)
 SubsOne == {<<"item">>, <<"list">>}
 SubsMany == {<<"item", "item">>, <<"list", "item">>, <<"item", "list">>, <<"list", "list">>} \cup
@@ -103,6 +128,7 @@ Seeds ==
     [] Part = "mathx" -> {[kind |-> "seed", cls |-> cls, v |-> v, u |-> u] : cls \in MathXClasses, v \in MathXDom.variables,
                                                                               u \in MathXDom.user_constants}
     [] Part = "answers" -> {[kind |-> "seed", cls |-> cls] : cls \in AnswerClasses}
+    [] Part = "listans" -> {[kind |-> "seed", cls |-> cls] : cls \in {"ListGrader", "SingleListGrader"}}
     [] Part = "lgroup" -> {[kind |-> "seed", ordered |-> o, subs |-> s] : o \in BOOLEAN, s \in SubsOne \cup SubsMany}
     [] Part = "nested" -> {[kind |-> "seed", n |-> n] : n \in 1..(IF Big THEN 4 ELSE 3)}
     [] Part = "square" -> {[kind |-> "seed", symmetry |-> s] : s \in SquareSyms}
@@ -116,6 +142,8 @@ Next ==
                             /\ out' = OutOf(c'.cls, MathXCfg(c'))
        [] Part = "answers" -> /\ c' \in [kind : {"answers"}, cls : {c.cls}, ans : AnswerValues]
                               /\ out' = AnswersOut(c'.ans)
+       [] Part = "listans" -> /\ c' \in [kind : {"listans"}, cls : {c.cls}, la : ListAnswerValues(c.cls)]
+                              /\ out' = ListAnswersOut(c'.cls, c'.la)
        [] Part = "lgroup" -> /\ c' \in LGCases(c.ordered, c.subs)
                              /\ out' = [expect |-> LGExpect(c')]
        [] Part = "nested" -> /\ c' \in [kind : {"nested"}, chain : [1..c.n -> Delims]]
@@ -167,6 +195,17 @@ LawOkFromGrade == (IsCase /\ c.kind = "answers" /\ out.expect = "accept") =>
   \A i \in 1..Len(out.canon) : LET a == out.canon[i] IN
      /\ a.grade \in {"g0", "ghalf", "g1"} /\ a.msg \in {"m_empty", "m_text"} /\ a.ok \in {"true", "false", "partial"}
      /\ a.grade # "g1" => a.ok = GradeToOk(a.grade)
+\* list answers: acceptance is alternative-wise; the canonical form has one entry per alternative and, inside it, one canonical
+\* answers tuple per list entry; wrapping a single alternative in a tuple changes nothing
+LawListAnswers == (IsCase /\ c.kind = "listans") =>
+  /\ (out.expect = "reject") <=> \E i \in 1..Len(c.la.alts) : AltExpect(c.cls, c.la.alts[i]) = "reject"
+  /\ out.expect = "accept" =>
+        /\ Len(out.canon) = Len(c.la.alts)
+        /\ \A i \in 1..Len(out.canon) :
+              LET es == IF c.cls = "ListGrader" THEN out.canon[i] ELSE out.canon[i].expect[1] IN
+              /\ Len(es) = Len(c.la.alts[i].entries)
+              /\ \A j \in 1..Len(es) : AnswersExpect(AsAnswers(es[j])) = "accept" /\ CanonAnswers(AsAnswers(es[j])) = es[j]
+  /\ ListAnswersOut(c.cls, [c.la EXCEPT !.bare = FALSE]) = out
 \* lgroup: with a list of subgraders an unordered grader is never accepted; a non-contiguous grouping is never accepted;
 \* renaming nothing but the order of inputs inside the grouping (reversal) does not change the verdict
 Rev(s) == [i \in 1..Len(s) |-> s[Len(s) + 1 - i]]
